@@ -592,6 +592,125 @@ def counter_set():
     return C
 
 
+BDEV = "mpf/devices/ball_device/ball_device.py"
+
+
+def loss_set():
+    """BallDevice: what happens to a ball that left a device without an eject, got lost on the way, or left by a
+    mechanical eject - the callees that BallCountHandler / the eject handlers rely on (M1, Q3).  Conservation: every
+    such ball is added to the `ball_missing_target` playfield exactly once and announced once."""
+    C = ContractSet("C04d", "lost balls are handed to the playfield exactly once")
+    C.strings = False
+    common.declare_events(C)
+    C.cls("SystemWideDevice", fields={})
+    C.cls("PlayfieldI", fields=dict(available_balls=Int))
+    C.ext("PlayfieldI.add_missing_balls",
+          model=lambda I, env, a, k: (emit(I, "add_missing_balls", pf=env["self"].ref, n=a[0]), NONE)[1],
+          trusted_reason="Playfield.add_missing_balls (P3 in the main set): balls += n, available_balls += n")
+    C.cls("TargetI", fields=dict(available_balls=Int, playfield=Bool, cancels=Bool, finds=Bool))
+    C.ext("TargetI.is_playfield", model=lambda I, env, a, k: I.read_field(env["self"].ref, "playfield"),
+          trusted_reason="is_playfield")
+    C.ext("TargetI.cancel_path_if_target_is", model=lambda I, env, a, k: I.read_field(env["self"].ref, "cancels"),
+          trusted_reason="OutgoingBallsHandler.cancel_path_if_target_is (path search: C05)")
+    C.ext("TargetI.find_available_ball_in_path", model=lambda I, env, a, k: I.read_field(env["self"].ref, "finds"),
+          trusted_reason="OutgoingBallsHandler.find_available_ball_in_path (FP1, C05)")
+    C.cls("OutgoingI", fields={})
+    C.ext("OutgoingI.add_eject_to_queue", model=lambda I, env, a, k: (emit(I, "queued_eject", eject=a[0]), NONE)[1],
+          trusted_reason="eject queue of the device (asyncio.Queue, FIFO)")
+    C.ext("OutgoingI.cancel_path_if_target_is", model=lambda I, env, a, k: VBool(z3.Bool(I.fresh_name("cancelled_path"))),
+          trusted_reason="path search (C05)")
+    C.ext("OutgoingI.find_available_ball_in_path", model=lambda I, env, a, k: VBool(z3.Bool(I.fresh_name("found_ball"))),
+          trusted_reason="path search FP1 (C05)")
+    C.cls("TimeoutMap", fields={})
+    C.ext("TimeoutMap.__getitem__", model=lambda I, env, a, k: VInt(z3.Int(I.fresh_name("timeout_ms"))),
+          trusted_reason="validated config: a timeout per eject target")
+
+    def outgoing_ball(I, a, k):
+        o = Obj("OutgoingBall", ObjS("OutgoingBall", max_tries=Int, eject_timeout=Real, target=ObjS("TargetI"),
+                                     player_controlled=Bool, already_left=Bool), I.fresh_name("eject"))
+        o.fresh = True
+        I.heap.data[(o, "max_tries")] = VInt(0)
+        I.heap.data[(o, "eject_timeout")] = VReal(z3.RealVal(0))
+        I.heap.data[(o, "target")] = a[0]
+        I.heap.data[(o, "player_controlled")] = VBool(False)
+        I.heap.data[(o, "already_left")] = VBool(False)
+        return VObj(o)
+    C.cls("OutgoingBall", fields=dict(max_tries=Int, eject_timeout=Real, target=ObjS("TargetI"), player_controlled=Bool,
+                                      already_left=Bool))
+    C.globals["OutgoingBall"] = VFn("model", model=outgoing_ball)
+    C.cls("BallDevice", file=BDEV, bases=["SystemWideDevice"], check_bases=False, fields=dict(
+        available_balls=Int, _state=Str, name=Str,
+        config=Rec(ball_missing_target=ObjS("PlayfieldI"), eject_targets=ListOf(ObjS("TargetI"), 1),
+                   eject_timeouts=ObjS("TimeoutMap"), max_eject_attempts=Int, mechanical_eject=Bool),
+        outgoing_balls_handler=ObjS("OutgoingI"), machine=ObjS("MachineController", events=ObjS("EventManager"))))
+    C.fn("BallDevice.state", is_property=True, inline=True, no_inv=True)
+    C.ext("EventManager.post_async", model=common.make_post("post_async"), trusted_reason="event posting (C01)")
+
+    def missing_once(I):
+        """add_missing_balls(1) on the configured ball_missing_target exactly once, and the two ball_missing events
+        (device-specific, generic) once each with balls=1"""
+        this = I.frames[0].env["self"].ref
+        pf = I.force(I.read_field(I.force(I.read_field(this, "config")).ref, "ball_missing_target")).ref
+        am = events_named(I, "add_missing_balls")
+        posts = events_named(I, "post")
+        if len(am) != 1 or am[0].args["pf"] is not pf or len(posts) != 2:
+            return VBool(False)
+        cs = [I.eq(am[0].args["n"], VInt(1))]
+        for e in posts:
+            kw = e.args["kwargs"]
+            if "balls" not in kw:
+                return VBool(False)
+            cs.append(I.eq(kw["balls"], VInt(1)))
+        return VBool(z3.And(cs))
+    C.helpers["missing_reported_once"] = missing_once
+    C.helpers["n_queued_ejects"] = lambda I: VInt(len(events_named(I, "queued_eject")))
+    C.trace_helpers = {"missing_reported_once", "n_queued_ejects", "mechanical_eject_queued"}
+    C.fn("BallDevice.lost_idle_ball",
+         ensures=[("L1: a ball that vanished from the idle device is no longer available here (-1), is added to the "
+                   "ball_missing_target playfield exactly once and is announced (balldevice_<n>_ball_missing, "
+                   "balldevice_ball_missing) once", "self.available_balls == old(self.available_balls) - 1 and "
+                                                   "missing_reported_once()")],
+         modifies=["self.available_balls"], raises={})
+    C.fn("BallDevice._balls_missing", params=dict(balls=Int), inline=True, no_inv=True)
+    C.fn("BallDevice.lost_incoming_ball", params=dict(source=Opaque("Any")),
+         ensures=[("L2: a ball that was confirmed to have left its source but never arrived here is added to the "
+                   "ball_missing_target playfield exactly once and announced once, whatever the path repair does",
+                   "missing_reported_once()")],
+         modifies=["self.available_balls", "self._ball_requests"], raises={}, skip_frame=True)
+    C.ext("BallDevice.cancel_path_if_target_is", model=lambda I, env, a, k: VBool(z3.Bool(I.fresh_name("cancelled_path"))),
+          trusted_reason="path search (C05)")
+    C.ext("BallDevice.find_available_ball_in_path", model=lambda I, env, a, k: VBool(z3.Bool(I.fresh_name("found"))),
+          trusted_reason="path search FP1 (C05)")
+    C.ext("BallDevice.request_ball", model=lambda I, env, a, k: (emit(I, "request_ball"), NONE)[1],
+          trusted_reason="BallDevice.request_ball: asks the sources for one more ball")
+    C.ext("BallDevice.eject", model=lambda I, env, a, k: (emit(I, "eject", target=k.get("target")), VInt(1))[1],
+          trusted_reason="BallDevice.eject: queues one eject to the target")
+    C.fn("BallDevice.lost_ejected_ball", params=dict(target=ObjS("TargetI")),
+         ensures=[("L3: a ball lost on the way to a device target is added to the ball_missing_target playfield exactly "
+                   "once and announced once, whatever the path repair does", "missing_reported_once()")],
+         modifies=["target.available_balls"], raises={"AssertionError": "target.playfield"}, skip_frame=True)
+
+    def mech_queued(I):
+        evs = events_named(I, "queued_eject")
+        if len(evs) != 1:
+            return VBool(False)
+        this = I.frames[0].env["self"].ref
+        cfg = I.force(I.read_field(this, "config")).ref
+        tgt = I.force(I.container(I.force(I.read_field(cfg, "eject_targets")).ref).items[0]).ref
+        e = I.force(evs[0].args["eject"]).ref
+        return VBool(z3.And(z3.BoolVal(I.force(I.read_field(e, "target")).ref is tgt),
+                            I.truth(I.read_field(e, "already_left")), I.truth(I.read_field(e, "player_controlled")),
+                            I.eq(I.read_field(e, "max_tries"), I.read_field(cfg, "max_eject_attempts"))))
+    C.helpers["mechanical_eject_queued"] = mech_queued
+    C.fn("BallDevice.handle_mechanical_eject_during_idle",
+         ensures=[("L4: a ball that left by a mechanical eject while the device was idle is accounted for as ONE eject "
+                   "that has already left towards the first eject target (which expects one more ball)",
+                   "mechanical_eject_queued() and self.config['eject_targets'][0].available_balls == "
+                   "old(self.config['eject_targets'][0].available_balls) + 1")],
+         modifies=["self.config['eject_targets'][0].available_balls"], raises={}, skip_frame=True)
+    return C
+
+
 def build_extra():
     # 'MPF never fires a ball towards a device that has no room': every physical attempt of the eject loop - the first
     # one AND every retry - comes after the target's readiness gate (C05's contract on _ejecting, clause E1)
@@ -600,4 +719,4 @@ def build_extra():
     c05.pid = "C04b"
     c05.replay_pid = "C05"
     c05.only_verify = ["OutgoingBallsHandler._ejecting"]
-    return [c05, counter_set()]
+    return [c05, counter_set(), loss_set()]
